@@ -272,7 +272,7 @@ func TestVerif_C37_TbtcConcurrentRace(t *testing.T) {
 	r := verifkit.Start(t, "C37", "tbtc-concurrent-race")
 	defer r.Finish()
 	r.SetRule("the concurrent streams (1000 events each) under the Go race detector, results in per-goroutine slots, start barrier only. non-trivial = two deliveries of the event overlapped according to the monotonic clock (evidence only)")
-	c37Concurrent(r, false, r.N(3, 200), 1000)
+	c37Concurrent(r, false, r.N(3, 100), 1000)
 }
 
 // ---------------------------------------------------------------------------
